@@ -17,16 +17,25 @@ CHECKS = {
     "C09": ("ForwardTrace contract (OneLeafRequestPerRequest, LeafBytesAtLeast, LeafAlignAtLeast, ReleaseSameLeaf, ReleaseSameShape, ReleaseOnce, TrackerSeesEachSuccessOnce) over a catalogue of wrapper compositions on instrumented leaves", "9 C09"),
     "C13": ("LockTrace contract (EnterHoldsMutex, AtMostOneInside, MutexIsExclusive, UnlockByHolder, StatelessTakesNoLock, DisjointUnderConcurrency, StatelessNetExact) on single-threaded passes over every forwarding member and on multi-threaded stress; Storage design model for the interleavings", "9 C13"),
     "C19": ("TablesTrace contract (RoundUpIsLeastMultiple, AlignOffsetIsLeast, IsAlignedIffOffsetZero, AlignmentForIsLargestPow2Capped, Ilog2IsFloor, Ilog2CeilIsCeil, BucketHoldsSize, Log2BucketLessThanTwice, IdentityBucketExact) on complete result tables of the real functions (small domain complete, 64-bit boundary classes as limbs); Arith design model proves transcription = definition on a complete 13-bit machine", "9 C19"),
+    "C14": ("TempTrace contract (ScopeRestoresStack, ContentIntactUntilScopeEnds, NoTwoLiveThreadsShareAStack, AdoptBeforeCreate, TemporaryMemoryDisjoint, AllFreedAtExit) on nested-scope histories, API-level interleavings and concurrent blocks interleaved at the guarded hook points by a seeded scheduler; TempStackList design model over all interleavings of 2-4 threads", "9 C14"),
+    "C16": ("ReportTrace contract (BadReleaseReportedOrStopped, ReportedBeforeStateChange) on valid prefixes followed by one invalid release in a child process, SeqTrace ValidReleaseNeverReported on valid histories; SmallChunkSearch design model", "9 C16"),
+    "C17": ("FenceTrace contract (OverflowReportedAtFirstDirtyByte, InBoundsNeverReported, FreshMemoryIsNewPattern, NeighboursUntouched, FencesExistWhenEnabled) with one byte written at every fence offset, system allocations observed through linker interposition; Fence design model", "9 C17"),
 }
 
 NOT_YET = {
     "C10": "check under construction in this session (containers driver + Propagate model)",
     "C11": "check under construction in this session (joint driver + JointContract)",
-    "C14": "check under construction in this session (temp driver, scheduling hook, TempStackList model)",
-    "C16": "check under construction in this session (bad-call mode + ReportContract)",
-    "C17": "check under construction in this session (lowlevel driver + FenceContract)",
     "C20": "check under construction in this session (construct driver + Construct model)",
 }
+
+
+def _hook_commits():
+    import subprocess
+    out = subprocess.run(["git", "-C", "/repo", "log", "--format=%H %s"], capture_output=True, text=True).stdout
+    return [l.split()[0] for l in out.splitlines() if l.split(" ", 1)[1].startswith("verif hook")]
+
+
+HOOK_COMMITS = _hook_commits()
 
 
 def generate():
@@ -62,7 +71,7 @@ def generate():
             "guard": "FOONATHAN_MEMORY_VERIF",
             "enable": "harness/CMakeLists.txt: add_compile_definitions(FOONATHAN_MEMORY_VERIF=1) before add_subdirectory(/repo)",
             "baseline_off_cmd": "cmake -G Ninja -S /repo -B /repo/_build -DCMAKE_BUILD_TYPE=RelWithDebInfo -DFETCHCONTENT_TRY_FIND_PACKAGE_MODE=ALWAYS && cmake --build /repo/_build -j16 && ctest --test-dir /repo/_build -j8 --timeout 900",
-            "source_commits": [],
+            "source_commits": HOOK_COMMITS,
             "add_only": True,
         },
         "engines": [{"name": "vcheck", "path": "bin/vcheck", "serves_properties": sorted(CHECKS),
